@@ -48,6 +48,16 @@ CHECKS = {
          "Random loops over 30 iterables (all kinds named in the property, lengths 0-6, nil and non-iterables) with bodies from a statement grammar that places if-guarded break/continue/return at every position, before/after/inside inner loops, function literals and if blocks, in multi-tag and single-tag layout. Output must equal the reference interpreter's (once per element, in order, control statements keeping what the iteration produced); non-iterables must be errors; loops lexically valid must not be rejected.",
          "Trusted: the 60-line reference interpreter; the generator avoids the corners the property leaves open (break in map bodies, text in silent if before a control statement).",
          "DESIGN.md §5 C08"),
+ "C16": ("exploration",
+         "runtime differential monitor: generated template functions (decision chains) called by the real engine vs. a reference interpreter; recorded tick and argument traces",
+         "Random functions of 0-4 parameters with nested if/else-if/else/return bodies are called with argument tuples that include caller variables named like the parameters (swapped, reversed) and recorded arguments; the call's value is used in 12 different ways. The engine's output, the ticks executed (nothing after the taken return) and the argument evaluation trace must equal the reference. Fixed higher-order and recursive programs (depth <= 12) are checked against computed values.",
+         "Trusted: the reference interpreter of the decision chain; per-use expected-output formulas.",
+         "DESIGN.md §5 C16"),
+ "C09": ("exploration",
+         "runtime differential monitor: generated nestings of scoping constructs with let/probe statements rendered by the real engine vs. an environment-chain reference model",
+         "All 155 nestings (depth <= 3) of for / function call / partial / contentFor+contentOf / block-with-context, each with random fresh and shadowing lets, shadowing binders and probes of three names before, inside and after every construct; every probe's output must equal what the environment-chain model predicts (no leak, no clobber, outer names readable, top-level let persists).",
+         "Trusted: the 20-line environment-chain model; abstentions (plain assignment, multi-iteration let visibility, detached function definitions) are not generated.",
+         "DESIGN.md §5 C09"),
 }
 NOT_YET = "check not built yet in this round (see DESIGN.md §5 for the planned monitor)"
 
